@@ -1859,7 +1859,8 @@ func (gs *GossipSubRouter) heartbeat() {
 		}
 
 		// should we try to improve the mesh with opportunistic grafting?
-		if gs.heartbeatTicks%gs.params.OpportunisticGraftTicks == 0 && len(peers) > 1 {
+		// (0 ticks: no opportunistic grafting, rather than a division by zero)
+		if gs.params.OpportunisticGraftTicks > 0 && gs.heartbeatTicks%gs.params.OpportunisticGraftTicks == 0 && len(peers) > 1 {
 			// Opportunistic grafting works as follows: we check the median score of peers in the
 			// mesh; if this score is below the opportunisticGraftThreshold, we select a few peers at
 			// random with score over the median.
@@ -2011,7 +2012,8 @@ func (gs *GossipSubRouter) clearBackoff() {
 func (gs *GossipSubRouter) directConnect() {
 	// we donly do this every some ticks to allow pending connections to complete and account
 	// for restarts/downtime
-	if gs.heartbeatTicks%gs.params.DirectConnectTicks != 0 {
+	// (0 ticks: direct peers are not redialled, rather than a division by zero)
+	if gs.params.DirectConnectTicks == 0 || gs.heartbeatTicks%gs.params.DirectConnectTicks != 0 {
 		return
 	}
 
